@@ -147,6 +147,32 @@ CLAIMED = {
         technique="Coq proof (normal equations, Pythagoras, certified inverse) + correspondence by vm_compute",
         note="Non-unisolvent node sets make the normal matrix singular; the implementation's ZeroDivisionError is accepted "
              "exactly when the model certifies singularity. Float nodes (Chebyshev defaults for float knots) are outside the model."),
+    "C13": dict(
+        text="Decided per generated case inside Coq: A == B, B == A, A != B, A == A and comparisons with non-curves, for a "
+             "curve and copies refined by knot insertion / degree elevation (both operand orders), copies with one refined "
+             "control point moved by 1e-3 (must differ) or 1e-12 (within tolerance), independent curves, different intervals - "
+             "against exact function equality computed from the Cox-de Boor specification (oracle), symmetry, negation, "
+             "operands unchanged. Theorems (Props/C13.v): different ends -> False; a True answer certifies that both "
+             "operands were projected onto the union knot vector within tolerance and the projected control points are "
+             "pairwise within 1e-9; a False answer exhibits a pair further apart; the union vector refines both operands; "
+             "projection onto a refinement is exact (left inverse). Model tied by exact differential execution.",
+        design="7/C13",
+        technique="Coq proof (certificates of the model's equality test; union refinement; exact projection) + correspondence and exact function oracle by vm_compute",
+        note="PART: 'same function => True' (completeness) needs linear independence of B-splines and is decided by the "
+             "oracle only; symmetry and reflexivity of the model's test are checked per case, not proved. Rational operands: "
+             "the library's weighted projection is lossy (K1) - kept out of the stream."),
+    "C14": dict(
+        text="Decided per generated case inside Coq: a curve with control points in general position (its own minimal "
+             "representation) is refined by the implementation through a random history of knot insertions and degree "
+             "elevations; then clean() must return exactly the starting knot vector and control points, knot_clean / "
+             "degree_clean the corresponding partial results, every call must leave the function unchanged (exact oracle) and "
+             "a second call must change nothing. The model of the clean loops (explicit fuel = length of the knot vector) "
+             "is tied by exact differential execution. Theorems (Props/C14.v): each accepted step removes exactly the "
+             "named knot copy and certifies error <= tolerance; projection onto a space that contains the curve is exact.",
+        design="7/C14",
+        technique="Coq proof (per-step certificates, termination bound) + correspondence and exact function oracle by vm_compute",
+        note="PART: idempotence and minimality as for-all statements need the uniqueness of the minimal B-spline representation "
+             "(not formalised); they are decided per case. Rational curves: K1."),
     "C17": dict(
         text="Unbounded theorems (Props/C17.v), for all well-formed operands whose distinct knots are >= 1e-6 apart: U|V has "
              "degree max(p,q) and, for every value x, multiplicity max of the degree-lifted multiplicities (per-knot maximum at "
